@@ -7,6 +7,8 @@
 //! usage: replay witness <Cxx> [seed]     prints one JSON object per line: {"prop","family","input","ptr","expected","actual"}
 //!        replay run <file.pyxis> <ptr>   prints the outcome of one input
 //!        replay count <Cxx>              number of cases in the family
+mod emit;
+mod emit_corpus;
 use pyxis::grammar::ItemPath;
 use pyxis::semantic::types::*;
 use pyxis::semantic::{ResolvedSemanticState, SemanticState};
@@ -37,13 +39,44 @@ pub fn build_modules(mods: &[(&str, String)], ptr: usize) -> Outcome {
         st.build()
     }));
     match r {
-        Ok(Ok(s)) => Outcome::Ok(s),
+        Ok(Ok(s)) => {
+            sample_emit(mods, ptr, &s);
+            Outcome::Ok(s)
+        }
         Ok(Err(e)) => Outcome::Err(format!("{e:#}")),
         Err(p) => Outcome::Panic(
             p.downcast_ref::<String>().cloned().or_else(|| p.downcast_ref::<&str>().map(|s| s.to_string())).unwrap_or_else(|| "?".into()),
         ),
     }
 }
+// ---- bounded backend check on a sample of the inputs every family accepts (emit.rs)
+thread_local! {
+    /// (stride, counter, violations found): stride 0 = off
+    static EMIT_SAMPLE: std::cell::RefCell<(usize, usize, Vec<(String, usize, emit::Viol)>)> = std::cell::RefCell::new((0, 0, vec![]));
+}
+pub fn scratch_dir() -> std::path::PathBuf {
+    let base = std::env::var_os("VERIF_EMIT_DIR").map(std::path::PathBuf::from).unwrap_or_else(std::env::temp_dir);
+    base.join(format!("pyxis-emit-{}", std::process::id()))
+}
+fn join_sources(mods: &[(&str, String)]) -> String {
+    if mods.len() == 1 { return mods[0].1.clone(); }
+    mods.iter().map(|(k, s)| format!("// ---- module {k}\n{s}")).collect::<Vec<_>>().join("\n")
+}
+fn sample_emit(mods: &[(&str, String)], ptr: usize, st: &ResolvedSemanticState) {
+    let due = EMIT_SAMPLE.with(|c| {
+        let mut c = c.borrow_mut();
+        if c.0 == 0 { return false; }
+        c.1 += 1;
+        c.1 % c.0 == 0 && c.2.len() < 200
+    });
+    if !due { return; }
+    let e = emit::emit_and_check(st, mods, &scratch_dir());
+    EMIT_SAMPLE.with(|c| {
+        let mut c = c.borrow_mut();
+        for x in e.viols { c.2.push((join_sources(mods), ptr, x)); }
+    });
+}
+
 pub fn build_one(src: &str, ptr: usize) -> Outcome {
     build_modules(&[("m", src.to_string())], ptr)
 }
@@ -725,8 +758,71 @@ fn absurd_family(out: &mut Vec<Fail>) -> usize {
     n
 }
 
+// ------------------------------------------------------------------------------------------------ backend (bounded stand-in, emit.rs)
+const EMIT_PROPS: &[&str] = &["C01", "C02", "C04", "C05", "C06", "C07", "C08", "C10", "C11", "C12", "C14", "C15", "C16", "C17", "C19", "C20"];
+fn emit_fail(out: &mut Vec<Fail>, prop: &str, input: String, ptr: usize, x: &emit::Viol) {
+    if x.props.contains(&prop) {
+        out.push(Fail { family: "emit", input, ptr, expected: "the emitted file carries the resolved item as the property says".into(), actual: x.what.clone() });
+    }
+}
+fn emit_family(prop: &str, out: &mut Vec<Fail>) -> usize {
+    let mut n = 0;
+    let dir = scratch_dir();
+    let stride = EMIT_SAMPLE.with(|c| std::mem::replace(&mut c.borrow_mut().0, 0));   // no sampling inside this family
+    for ptr in [4usize, 8] {
+        for (_label, mods) in emit_corpus::corpus() {
+            n += 1;
+            if let Outcome::Ok(st) = build_modules(&mods, ptr) {
+                let e = emit::emit_and_check(&st, &mods, &dir);
+                for x in &e.viols { emit_fail(out, prop, join_sources(&mods), ptr, x); }
+            }
+        }
+        if prop == "C20" {
+            for (what, a, b) in emit_corpus::equivalent_pairs() {
+                n += 1;
+                let (ma, mb) = (vec![("m", a.clone())], vec![("m", b.clone())]);
+                if let (Outcome::Ok(sa), Outcome::Ok(sb)) = (build_modules(&ma, ptr), build_modules(&mb, ptr)) {
+                    let (ea, eb) = (emit::emit_and_check(&sa, &ma, &dir), emit::emit_and_check(&sb, &mb, &dir));
+                    if ea.files != eb.files {
+                        out.push(Fail { family: "emit", input: format!("{a}\n// ---- rewritten ({what})\n{b}"), ptr, expected: "byte-identical output".into(), actual: first_diff(ea.files.get("m"), eb.files.get("m")) });
+                    }
+                }
+            }
+        }
+        if prop == "C19" {
+            for (what, key, a, b) in emit_corpus::unrelated_pairs() {
+                n += 1;
+                if let (Outcome::Ok(sa), Outcome::Ok(sb)) = (build_modules(&a, ptr), build_modules(&b, ptr)) {
+                    let (ea, eb) = (emit::emit_and_check(&sa, &a, &dir), emit::emit_and_check(&sb, &b, &dir));
+                    if ea.files.get(key) != eb.files.get(key) || ea.files.get(key).is_none() {
+                        out.push(Fail { family: "emit", input: format!("{}\n// ==== changed input set ({what}); observed module `{key}`\n{}", join_sources(&a), join_sources(&b)), ptr, expected: format!("output of module `{key}` byte-identical"), actual: first_diff(ea.files.get(key), eb.files.get(key)) });
+                    }
+                }
+            }
+        }
+    }
+    EMIT_SAMPLE.with(|c| c.borrow_mut().0 = stride);
+    n
+}
+fn first_diff(a: Option<&String>, b: Option<&String>) -> String {
+    match (a, b) {
+        (Some(a), Some(b)) => {
+            for (i, (x, y)) in a.lines().zip(b.lines()).enumerate() {
+                if x != y { return format!("line {}: `{}` vs `{}`", i + 1, x.trim(), y.trim()); }
+            }
+            format!("{} lines vs {} lines", a.lines().count(), b.lines().count())
+        }
+        _ => "an output file is missing".into(),
+    }
+}
+
 fn run_family(prop: &str, seed: u64, quick: bool, out: &mut Vec<Fail>) -> usize {
     let mut n = 0;
+    if EMIT_PROPS.contains(&prop) {
+        // the backend check also runs on every k-th input the other families find accepted
+        EMIT_SAMPLE.with(|c| { let mut c = c.borrow_mut(); c.0 = if quick { 97 } else { 13 }; c.1 = seed as usize % 7; });
+        n += emit_family(prop, out);
+    }
     if ["C01", "C02", "C03", "C12"].contains(&prop) { n += layout_family(seed, quick, prop, out); }
     if ["C04", "C16", "C02", "C12", "C14", "C06", "C20"].contains(&prop) { n += vft_family(prop, out); }
     if ["C08", "C02", "C15", "C17", "C12", "C20"].contains(&prop) { n += enum_family(seed, quick, prop, out); }
@@ -734,6 +830,8 @@ fn run_family(prop: &str, seed: u64, quick: bool, out: &mut Vec<Fail>) -> usize 
     if ["C06", "C16", "C12"].contains(&prop) { n += inherit_family(if prop == "C16" { "C06" } else { prop }, out); }
     if ["C12", "C03"].contains(&prop) { n += absurd_family(out); }
     if ["C05", "C07", "C10", "C11", "C14", "C15", "C17", "C19", "C20", "C12"].contains(&prop) { n += misc_family(prop, out); }
+    let sampled = EMIT_SAMPLE.with(|c| { let mut c = c.borrow_mut(); c.0 = 0; std::mem::take(&mut c.2) });
+    for (input, ptr, x) in &sampled { emit_fail(out, prop, input.clone(), *ptr, x); }
     n
 }
 
@@ -762,7 +860,7 @@ fn main() {
             for f in out.iter().take(25) {
                 println!("{{\"prop\":\"{}\",\"family\":\"{}\",\"ptr\":{},\"input\":\"{}\",\"expected\":\"{}\",\"actual\":\"{}\"}}", prop, f.family, f.ptr, esc(&f.input), esc(&f.expected), esc(&f.actual));
             }
-            println!("{{\"cases\":{},\"failures\":{}}}", n, out.len());
+            println!("{{\"cases\":{},\"failures\":{},\"emitted_files_checked\":{}}}", n, out.len(), emit::EMITTED_FILES.load(std::sync::atomic::Ordering::Relaxed));
         }
         Some("run") => {
             let src = std::fs::read_to_string(a.get(2).expect("file")).expect("read");
@@ -775,6 +873,32 @@ fn main() {
                 }
             }
         }
-        _ => eprintln!("usage: replay witness <Cxx> [seed] | run <file> <ptr>"),
+        Some("corpus") => {
+            for ptr in [4usize, 8] {
+                for (label, mods) in emit_corpus::corpus() {
+                    println!("{ptr} {label}: {}", build_modules(&mods, ptr).tag());
+                }
+                for (what, a, b) in emit_corpus::equivalent_pairs() {
+                    println!("{ptr} C20 {what}: {} / {}", build_one(&a, ptr).tag(), build_one(&b, ptr).tag());
+                }
+                for (what, _, a, b) in emit_corpus::unrelated_pairs() {
+                    println!("{ptr} C19 {what}: {} / {}", build_modules(&a, ptr).tag(), build_modules(&b, ptr).tag());
+                }
+            }
+        }
+        Some("emit") => {
+            // run one input through the real backend, print what it wrote and what the backend check says
+            let src = std::fs::read_to_string(a.get(2).expect("file")).expect("read");
+            let ptr = a.get(3).and_then(|s| s.parse().ok()).unwrap_or(8usize);
+            let mods = vec![("m", src)];
+            let o = build_modules(&mods, ptr);
+            println!("{}", o.tag());
+            if let Outcome::Ok(st) = &o {
+                let e = emit::emit_and_check(st, &mods, &scratch_dir());
+                for (k, t) in &e.files { println!("// ==== {k}.rs\n{t}"); }
+                for x in &e.viols { println!("BACKEND-CHECK {:?} {}", x.props, x.what); }
+            }
+        }
+        _ => eprintln!("usage: replay witness <Cxx> [seed] | run <file> <ptr> | emit <file> <ptr>"),
     }
 }
